@@ -3,6 +3,18 @@
 import json, sys
 pid, tag = sys.argv[1], sys.argv[2]
 p = next(json.loads(l) for l in open('/verif/properties.jsonl') if json.loads(l)['id'] == pid)
+import glob
+prev = []
+for f in sorted(glob.glob(f"/verif/harmless/{pid}-*/meta.json")):
+    try:
+        prev.append("- " + (json.load(open(f)).get("summary") or "")[:500].replace("\n", " "))
+    except Exception:
+        pass
+avoid = ("\nALREADY TRIED by another tester (do something DIFFERENT: other functions of the anchored files, other styles of rewrite — e.g. "
+         "change private data layout or dtype handling that cannot affect results, swap the order in which independent terms / generators / "
+         "dictionary entries are processed, cache or hoist invariant computations, replace tree_map by explicit loops or the reverse, change "
+         "which PRNG sub-key feeds which draw, restructure class internals (helpers, properties, early validation that raises the same errors)):\n"
+         + "\n".join(prev) + "\n") if prev else ""
 wt = f"/tmp/mut-{pid}-{tag}"
 out = f"/tmp/mut-{pid}-{tag}.out"
 print(f"""You are testing whether an (unknown to you) verification harness raises FALSE ALARMS on harmless changes to the Python/JAX library jinns (physics-informed neural networks). You get only a property the library satisfies, and your own scratch git worktree of the library. Do not look at or use anything under /verif.
@@ -14,6 +26,7 @@ Where it lives: files {p['anchors']['files']}; mechanisms: {[m['name'] + ' @ ' +
 
 YOUR WORKTREE: {wt} (a git worktree of the library at its current HEAD; python = /venv/bin/python; run code against it with `cd {wt} && JAX_PLATFORMS=cpu PYTHONPATH={wt} /venv/bin/python yourscript.py` — check `import jinns; print(jinns.__file__)` points into {wt}). Never touch /repo itself, never commit anything, never use `git stash` (shared between worktrees; toggle with `git diff > patch`, `git apply -R patch`, `git apply patch`).
 
+{avoid}
 TASK: write a realistic, NON-TRIVIAL refactor or internal behaviour change of the code this property is anchored in, of the kind a maintainer would merge, under which the property above STILL HOLDS for every input (and the public API, argument validation and error behaviour are unchanged). Make it as internally different as you plausibly can while staying correct, for example: a different but equivalent algorithm (an index-gather instead of repeat/tile, a scan instead of a Python loop, a sum of diagonal entries instead of a trace, jacfwd instead of jacrev, a different but valid way of shuffling or of consuming/splitting PRNG keys, so that the random stream differs but every contract is kept), reordered independent statements, renamed locals / private helpers, restructured control flow (elif chains, early returns), mathematically equal re-associations that are exact on small integers and dyadic rationals, different private attribute layout that is not part of the documented behaviour. Touch 10-60 lines. Do NOT change anything the property (or the documented public behaviour) constrains.
 
 Then write a demonstration `{out}/demo.py` that exercises the property's public behaviour on several inputs and exits 0 (prints OK) BOTH on the original code and with your change.
